@@ -11,7 +11,7 @@ use serde_json::json;
 use std::panic::{catch_unwind, AssertUnwindSafe};
 
 pub const CODINGS: [&str; 6] = ["gzip", "identity", "*", "br", "deflate", "x-gzip"];
-pub const WEIGHTS: [Option<&str>; 11] = [
+pub const WEIGHTS: [Option<&str>; 17] = [
     None,
     Some("0"),
     Some("0."),
@@ -23,6 +23,12 @@ pub const WEIGHTS: [Option<&str>; 11] = [
     Some("1"),
     Some("1."),
     Some("1.000"),
+    Some("0.05"),
+    Some("0.50"),
+    Some("0.25"),
+    Some("0.9"),
+    Some("1.0"),
+    Some("0.00"),
 ];
 
 /// Renders a list with one of four whitespace styles.
@@ -130,18 +136,18 @@ pub fn run_c16(run: &mut Run) -> Stats {
     for k in 0..=kmax {
         outer.extend(lists_k(k));
     }
-    run.bounds = json!({"max_elements": kmax, "coding_lists": outer.len(), "weights": 11, "whitespace_styles": 4});
+    run.bounds = json!({"max_elements": kmax, "coding_lists": outer.len(), "weights": WEIGHTS.len(), "whitespace_styles": 4});
     let mut total = par_for(outer.len() as u64, threads(), |i, st| {
         let codings = &outer[i as usize];
         let k = codings.len();
-        let n = 11u64.pow(k as u32);
+        let n = (WEIGHTS.len() as u64).pow(k as u32);
         for wi in 0..n {
             let mut x = wi;
             let elems: Vec<(usize, usize)> = codings
                 .iter()
                 .map(|c| {
-                    let w = (x % 11) as usize;
-                    x /= 11;
+                    let w = (x % WEIGHTS.len() as u64) as usize;
+                    x /= WEIGHTS.len() as u64;
                     (*c, w)
                 })
                 .collect();
@@ -161,10 +167,26 @@ pub fn run_c16(run: &mut Run) -> Stats {
     judge(None, &mut st, 0, &prop);
     // repeated codings (no verdict, no panic)
     for a in 0..CODINGS.len() {
-        for wa in 0..11 {
-            for wb in 0..11 {
+        for wa in 0..WEIGHTS.len() {
+            for wb in 0..WEIGHTS.len() {
                 let h = render(&[(a, wa), (a, wb)], 1);
                 judge(Some(h.as_bytes()), &mut st, 1 << 50, &prop);
+            }
+        }
+    }
+    // coding tokens that merely resemble gzip / identity / *: they are other codings
+    for tok in ["gzip2", "gzipp", "gzi", "xgzip", "gzip-foo", "gzip.gz", "x-gzip", "identity2", "identit", "**", "*gzip", "gzip*", "g", "deflate"] {
+        for w in [None, Some("0"), Some("0.5"), Some("1")] {
+            let a = match w {
+                None => tok.to_string(),
+                Some(q) => format!("{tok};q={q}"),
+            };
+            for rest in ["", ", identity;q=0.5", ", identity;q=0", ", *;q=0", ", gzip;q=0.2, identity;q=0.3", ", br"] {
+                let h = format!("{a}{rest}");
+                st.nontrivial(&h);
+                judge(Some(h.as_bytes()), &mut st, (1 << 48) + h.len() as u64, &prop);
+                let h2 = format!("{}{a}", rest.trim_start_matches(", ").to_string() + if rest.is_empty() { "" } else { ", " });
+                judge(Some(h2.as_bytes()), &mut st, (1 << 48) + h2.len() as u64, &prop);
             }
         }
     }
@@ -256,19 +278,19 @@ pub fn c17_values(tier: Tier) -> Vec<Option<String>> {
     let kmax = 2;
     for k in 1..=kmax {
         for codings in lists_k(k) {
-            let n = 11u64.pow(k as u32);
+            let n = (WEIGHTS.len() as u64).pow(k as u32);
             for wi in 0..n {
                 let mut x = wi;
                 let elems: Vec<(usize, usize)> = codings
                     .iter()
                     .map(|c| {
-                        let w = (x % 11) as usize;
-                        x /= 11;
+                        let w = (x % WEIGHTS.len() as u64) as usize;
+                        x /= WEIGHTS.len() as u64;
                         (*c, w)
                     })
                     .collect();
                 // thin the weight alphabet for 2-element lists in the quick tier
-                if k == 2 && tier == Tier::Quick && elems.iter().any(|(_, w)| [2, 3, 9, 10].contains(w)) {
+                if k == 2 && tier == Tier::Quick && elems.iter().any(|(_, w)| [2, 3, 9, 10, 12, 13, 14, 15, 16].contains(w)) {
                     continue;
                 }
                 v.push(Some(render(&elems, 1)));
@@ -296,6 +318,13 @@ pub fn c17_values(tier: Tier) -> Vec<Option<String>> {
         "gzip;level=9",
         "GZIP",
         "gzip;Q=0",
+        // the header given as two lines
+        "gzip\nidentity;q=0",
+        "identity;q=0\ngzip",
+        "br\ngzip;q=0.5",
+        "gzip;q=0\n*",
+        "*\ngzip;q=0",
+        "identity\nidentity;q=0, gzip",
     ] {
         v.push(Some(s.to_string()));
     }
@@ -331,9 +360,18 @@ pub fn c17_case_calls(ae: &Option<String>, level: u32, chunk: usize, method: &st
     }
     // The statement defers to what should_gzip decides; the independent evaluator is used
     // where it has a verdict, should_gzip itself elsewhere (C16 ties the two together).
-    let want_pref = match prefers_gzip(ae.as_ref().map(|s| s.as_bytes())) {
-        Some(b) => b,
-        None => call_should_gzip(ae.as_ref().map(|s| s.as_bytes())).unwrap_or(false),
+    let want_pref = if ae.as_ref().map(|s| s.contains('\n')).unwrap_or(false) {
+        // several header lines: "as should_gzip decides" on the very same header map
+        let mut h = http::HeaderMap::new();
+        for line in ae.as_ref().unwrap().split('\n') {
+            h.append(http::header::ACCEPT_ENCODING, http::HeaderValue::from_bytes(line.as_bytes()).unwrap());
+        }
+        catch_unwind(AssertUnwindSafe(|| http_serve::should_gzip(&h))).unwrap_or(false)
+    } else {
+        match prefers_gzip(ae.as_ref().map(|s| s.as_bytes())) {
+            Some(b) => b,
+            None => call_should_gzip(ae.as_ref().map(|s| s.as_bytes())).unwrap_or(false),
+        }
     };
     let want = want_pref && level > 0;
     if says_gzip != want {
